@@ -137,6 +137,47 @@ impl Display for Error {
 
 impl std::error::Error for Error {}
 
+impl Error {
+    /// Convert a pest error, taking line and column from the error's byte
+    /// offset in `input` so that they follow the same rules as the positions
+    /// of syntax tree nodes (pest itself does not treat a lone `\r` as a line
+    /// terminator).
+    pub(crate) fn from_pest<R: RuleType>(err: pest::error::Error<R>, input: &str) -> Self {
+        use pest::error::InputLocation;
+
+        let locate = |offset: usize| {
+            let (mut line, mut column) = (1, 1);
+            let mut chars = input[..offset.min(input.len())].chars().peekable();
+            while let Some(ch) = chars.next() {
+                match ch {
+                    '\r' => {
+                        if chars.peek() == Some(&'\n') {
+                            chars.next();
+                        }
+                        line += 1;
+                        column = 1;
+                    }
+                    '\n' => {
+                        line += 1;
+                        column = 1;
+                    }
+                    _ => column += 1,
+                }
+            }
+            Pos { line, column }
+        };
+        let (start, end) = match err.location {
+            InputLocation::Pos(at) => (locate(at), None),
+            InputLocation::Span((start, end)) => (locate(start), Some(locate(end))),
+        };
+        Error::Syntax {
+            message: err.to_string(),
+            start,
+            end,
+        }
+    }
+}
+
 impl<R: RuleType> From<pest::error::Error<R>> for Error {
     fn from(err: pest::error::Error<R>) -> Self {
         let (start, end) = match err.line_col {
